@@ -211,3 +211,5 @@ def run(F, rep, tier):
                               "expanded line %d" % arm[3], sample={"arm": "(%s, %s)" % (src_[1], kb), "struct": st[1], "out": mt.group(1)})
     rep.floor("C12-R1", "scalar conversion arms", n1, 150)
     rep.analysed = {"conversion_impls": n, "conversion_structs": len(conv), "reshape_sites": nsites, "scalar_pair_arms": n1}
+    from rules.loopshape import c12_reshape_allocation
+    c12_reshape_allocation(F, rep)
